@@ -137,7 +137,10 @@ impl<'a> Options<'a> {
         uri.push_str(&self.path);
         if !self.query.is_empty() {
             uri.push('?');
-            for (k, v) in self.query {
+            for (i, (k, v)) in self.query.into_iter().enumerate() {
+                if i > 0 {
+                    uri.push('&');
+                }
                 push_iter_str(&mut uri, url::form_urlencoded::byte_serialize(k.as_bytes()));
                 uri.push('=');
                 push_iter_str(&mut uri, url::form_urlencoded::byte_serialize(v.as_bytes()));
